@@ -31,6 +31,10 @@ def build_cases(tier, seed):
         if i % 6 == 0:
             # a co-simulation client that hands stations and bases back with other coordinates (to be refused)
             opts = dict(opts, cosim_ops={"every": 4, "kinds": ["try_move"]})
+        if i % 12 == 10:
+            # a coarser sim_h3_resolution on the straight-line network, charging and parking only (with requests the built-in
+            # dispatcher cannot measure distances between the request cells and the vehicles' cells - DESIGN 6)
+            prof.update({"network": "euclidean", "loc_res": [12, 13, 14][(i // 12) % 3], "n_requests": (0, 0), "soc": [0.03, 0.08, 0.2, 0.5]})
         if i % 12 == 4:
             # a client that writes older copies of vehicles back (with one more membership)
             opts = dict(opts, cosim_ops={"every": 5, "kinds": ["stale_write_back"]})
